@@ -895,7 +895,7 @@ class Interp:
                     parts.append(str(x))
                 elif x is None and v.format_spec is None:
                     parts.append("None")
-                elif isinstance(x, SymV) and x.ty == "name" and v.format_spec is None and v.conversion == -1:
+                elif isinstance(x, SymV) and x.ty in ("name", "int") and v.format_spec is None and v.conversion == -1:
                     parts.append(x)
                 else:
                     return Opaque("fstring")
@@ -906,7 +906,15 @@ class Interp:
             # one symbolic name inside constant text: a function of (template, name) - ASSUMED, see builtins.STR_FMT1
             from .values import intern_name, nameval
             template = "".join("{}" if isinstance(q, SymV) else q.replace("{", "{{").replace("}", "}}") for q in parts)
-            return SymV(B.STR_FMT1(z3.IntVal(intern_name("fmt:" + template)), nameval(syms[0])), "name")
+            tid = z3.IntVal(intern_name("fmt:" + template))
+            if syms[0].ty == "int":
+                # decimal rendering of an integer inside constant text: ASSUMED injective in the integer
+                if not self.ext_state.get("fmt_int_axiom"):
+                    self.ext_state["fmt_int_axiom"] = True
+                    t_, a_, b_ = z3.Int("_fi_t"), z3.Int("_fi_a"), z3.Int("_fi_b")
+                    self.ctx.assume(z3.ForAll([t_, a_, b_], z3.Implies(B.STR_FMTI(t_, a_) == B.STR_FMTI(t_, b_), a_ == b_)))
+                return SymV(B.STR_FMTI(tid, syms[0].t), "name")
+            return SymV(B.STR_FMT1(tid, nameval(syms[0])), "name")
         return Opaque("fstring")
 
     def ex_IfExp(self, n, fr):
@@ -988,6 +996,11 @@ class Interp:
             return ("concrete", it)
         base_locals = dict(fr.locals)
         made_at = len(self.ctx.writes)
+        # an element expression built only from names, constants, f-strings and arithmetic reads no heap: evaluating it
+        # later gives what evaluating it now would have given, whatever was written in between
+        heap_free = all(isinstance(x, (ast.Name, ast.Constant, ast.JoinedStr, ast.FormattedValue, ast.BinOp, ast.UnaryOp,
+                                       ast.Compare, ast.BoolOp, ast.operator, ast.unaryop, ast.cmpop, ast.boolop,
+                                       ast.expr_context, ast.Tuple)) for x in ast.walk(n.elt))
 
         def raw_elem(i):
             f2 = Frame(fr.fi, fr.module, dict(base_locals), fr.selfcls, closure=getattr(fr, "closure", None))
@@ -1008,7 +1021,7 @@ class Interp:
         def elem(i):
             # later (lazy) evaluations: the heap must not have changed since, and a raising element was already
             # accounted for by the probe above, so such a branch is not a new behaviour of this path
-            if len(self.ctx.writes) != made_at:
+            if len(self.ctx.writes) != made_at and not heap_free:
                 raise EngineLimit("lazily evaluated comprehension read after heap writes")
             try:
                 return raw_elem(i)
